@@ -113,19 +113,6 @@ Proof.
   - intros ch r Hin. destruct (B _ _ Hin) as [k Hk]. eauto.
 Qed.
 
-Lemma ResOK_plain J C (m : M tok_out) :
-  (forall s s' txt c ds, m s = (s', Ok (txt, c, ds)) -> c <> CBreak -> c = CNext /\ forall ch r, ~ In (DChoice ch r) ds) ->
-  (forall s s' txt c ds, m s = (s', Ok (txt, c, ds)) -> c = CBreak -> forall ch r, ~ In (DChoice ch r) ds) ->
-  ResOK J C m.
-Proof.
-  intros H1 H2 s s' txt c ds E. split.
-  - intros spec ->. destruct (H1 _ _ _ _ _ E) as [X _]; discriminate.
-  - intros ch r Hin. exfalso. destruct c.
-    + destruct (H1 _ _ _ _ _ E) as [_ X]; [discriminate|]. exact (X _ _ Hin).
-    + destruct (H1 _ _ _ _ _ E) as [X _]; discriminate.
-    + exact (H2 _ _ _ _ _ E eq_refl _ _ Hin).
-Qed.
-
 (* a renderer that returns (_, CNext | CBreak, no choice directive) *)
 Lemma ResOK_simple J C (m : M tok_out) :
   (forall s s' txt c ds, m s = (s', Ok (txt, c, ds)) ->
@@ -284,11 +271,13 @@ Proof.
     destruct (String.eqb v "" || String.eqb c "").
     + apply ResOK_simple. intros s s' txt c0 ds E. apply ret_ok in E. destruct E as [_ E].
       inversion E; subst. split; [left; reflexivity|apply no_dchoice_nil].
-    + intros s s' txt c0 ds E. apply catch_ok in E. destruct E as [E|(s2 & e & _ & E)]; [|discriminate].
+    + intros s s' txt c0 ds E.
       apply bind_ok in E. destruct E as (s1 & ctx & _ & E).
-      apply bind_ok in E. destruct E as (s2 & cv & _ & E).
-      apply bind_ok in E. destruct E as (s3 & items & _ & E).
-      eapply render_loop_items_ok; [|exact E]. exact H.
+      destruct (match o_eval orc ctx c with Ok c1 => py_iter c1 | Exc e => Exc e end) as [items|e].
+      * eapply render_loop_items_ok; [|exact E]. exact H.
+      * apply ret_ok in E. destruct E as [_ E]. inversion E; subst. split.
+        -- intros sp X; discriminate.
+        -- intros ch r [].
   - (* jump *)
     intros s s' txt c ds E. apply ret_ok in E. destruct E as [_ E]. inversion E; subst. split.
     + intros sp Hs. inversion Hs; subst. exists t, a. split; [left; reflexivity|reflexivity].
@@ -1232,28 +1221,28 @@ Proof.
 Qed.
 
 (* the states an engine can be in *)
-Inductive reach : estate -> Prop :=
-| R_init v0 : reach (fst (init orc ctxkeys st v0))
-| R_choose e i : reach e -> reach (fst (choose orc ctxkeys st e i))
-| R_undo e : reach e -> reach (fst (undo e))
-| R_redo e : reach e -> reach (fst (redo e))
-| R_goto e spec : reach e -> reach (fst (goto_op orc ctxkeys st e spec))
-| R_reset e : reach e -> reach (reset_one_time e).
+Inductive reachable : estate -> Prop :=
+| R_init v0 : reachable (fst (init orc ctxkeys st v0))
+| R_choose e i : reachable e -> reachable (fst (choose orc ctxkeys st e i))
+| R_undo e : reachable e -> reachable (fst (undo e))
+| R_redo e : reachable e -> reachable (fst (redo e))
+| R_goto e spec : reachable e -> reachable (fst (goto_op orc ctxkeys st e spec))
+| R_reset e : reachable e -> reachable (reset_one_time e).
 
-Lemma reach_inv e : reach e -> inv e.
+Lemma reach_inv e : reachable e -> inv e.
 Proof.
   induction 1.
   - apply init_inv.
-  - destruct (choose orc ctxkeys st e i) as [e' r] eqn:E. apply choose_spec in E; [|exact IHreach]. simpl. tauto.
+  - destruct (choose orc ctxkeys st e i) as [e' r] eqn:E. apply choose_spec in E; [|exact IHreachable]. simpl. tauto.
   - apply undo_inv; assumption.
   - apply redo_inv; assumption.
-  - destruct (goto_op orc ctxkeys st e spec) as [e' r] eqn:E. apply goto_op_spec in E; [|exact IHreach]. simpl. tauto.
+  - destruct (goto_op orc ctxkeys st e spec) as [e' r] eqn:E. apply goto_op_spec in E; [|exact IHreachable]. simpl. tauto.
   - apply reset_inv; assumption.
 Qed.
 
 (* every choice offered in a reachable state is an edge from the shown passage *)
 Lemma reach_offered_edges e rc :
-  reach e -> In rc (o_choices (current_out e)) -> is_ref (ch_target (rc_choice rc)) = true ->
+  reachable e -> In rc (o_choices (current_out e)) -> is_ref (ch_target (rc_choice rc)) = true ->
   exists k, is_jump k = false /\ In (o_pid (current_out e), ch_target (rc_choice rc), k) (edges st).
 Proof.
   intros Hr Hin R. apply reach_inv in Hr. destruct Hr as [I1 _].
@@ -1263,7 +1252,7 @@ Qed.
 
 (* every passage entered by a choice made in a reachable state is reached along edges of the graph *)
 Lemma reach_choose_path e i :
-  reach e ->
+  reachable e ->
   exists lg, elog (fst (choose orc ctxkeys st e i)) = elog e ++ lg /\
     match nth_error (o_choices (current_out e)) (Z.to_nat i) with
     | Some ch => choose_path st (o_pid (current_out e)) (ch_target (rc_choice ch)) (nav_entered lg)
@@ -1353,7 +1342,7 @@ Qed.
 
 Lemma reach_goto_path orc ctxkeys st :
   wf_graphb st = true ->
-  forall e spec, reach orc ctxkeys st e ->
+  forall e spec, reachable orc ctxkeys st e ->
   exists lg, elog (fst (goto_op orc ctxkeys st e spec)) = elog e ++ lg /\
              path_from st (spec_name spec) (nav_entered lg).
 Proof.
@@ -1365,3 +1354,9 @@ Qed.
 Lemma missing_is_referenced_not_defined st t :
   In t (missing st) <-> In t (referenced st) /\ ~ In t (defined st).
 Proof. apply missing_of_in. Qed.
+
+Lemma join_not_a_reference_lemma st src k :
+  ~ In (src, JOIN_TARGET, k) (edges st) /\ ~ In JOIN_TARGET (referenced st) /\ ~ In JOIN_TARGET (missing st).
+Proof.
+  split; [apply join_never_edge|]. split; [apply join_never_referenced|apply join_never_missing_lemma].
+Qed.
